@@ -395,6 +395,25 @@ static void run_case(Case &c)
     const int max_calls = cfg.mode == 1 ? 48 : r.range(4, 10);
     std::string sig;
 
+    // Period arithmetic adversary (real-time mode, every eighth case): from a fresh instance the fractional-frame carry is exactly 0;
+    // a first request of k1 frames with rate * (k1 / rate) one ulp below k1 leaves a carry of 1 - epsilon, and a second request
+    // k2 whose product rounds up makes carry + k2 reach k2 + 1: the period then wants one frame more than was asked for
+    int adv_k1 = 0, adv_k2 = 0;
+    if(cfg.mode == 0 && r.chance(0.125))
+    {
+        std::vector<int> k1s;
+        for(int k = 1; k <= 300; k++) { double cy = (double)cfg.rate * ((double)k / (double)cfg.rate); if((long)cy < k) k1s.push_back(k); }
+        if(!k1s.empty())
+        {
+            int k1 = k1s[r.below((uint32_t)k1s.size())];
+            double cy = (double)cfg.rate * ((double)k1 / (double)cfg.rate); cy -= (double)(long)cy;      // after the first period
+            cy += (double)cfg.rate * (1.0 / (double)cfg.rate); cy -= (double)(long)cy;                    // ... and the one-frame period that completes the request
+            std::vector<int> k2s;
+            for(int k = 1; k <= 300; k++) if(k != k1) { double t = cy + (double)cfg.rate * ((double)k / (double)cfg.rate); if((long)t > k) k2s.push_back(k); }
+            if(!k2s.empty()) { adv_k1 = k1; adv_k2 = k2s[r.below((uint32_t)k2s.size())]; count("period_carry_adversary_cases"); }
+        }
+    }
+
     for(int step = 0; step < max_calls && g_w.violations_in_case < 3 && !twin_broken; step++)
     {
         // -- events between audio calls (real-time modes)
@@ -411,7 +430,9 @@ static void run_case(Case &c)
         // -- request size
         int want;
         if(cfg.mode == 1 && r.chance(0.5)) want = r.pick((const int[]){1024, 1026, 2047, 4096, 1025});
-        else want = r.pick(k_sizes);
+        else want = r.chance(0.35) ? r.range(2, 600) : r.pick(k_sizes);     // arbitrary small sizes: the period arithmetic carries a fractional frame from call to call
+        const bool adv_step = adv_k1 && step < 2;
+        if(adv_step) want = 2 * (step == 0 ? adv_k1 : adv_k2);
         if(want == 70000 && !r.chance(0.25)) want = 4096;     // 70000 stays rare (and, through the frame budget, on cheap configurations)
         if(slow && want > 100) want = r.chance(0.15) ? r.pick((const int[]){1023, 1024, 1025, 1026}) : r.pick((const int[]){2, 3, 4, 5, 100});
         const int even = want > 0 ? want - (want % 2) : 0;
@@ -422,7 +443,7 @@ static void run_case(Case &c)
         // -- format and API under test
         Fmt f = pick_format(r);
         int api;      // 0 generateFormat, 1 generate (short*), 2 playFormat, 3 play (short*)
-        if(cfg.mode == 0) api = r.chance(0.15) ? 1 : 0; else api = r.chance(0.15) ? 3 : 2;
+        if(cfg.mode == 0) api = (r.chance(0.15) || adv_step) ? 1 : 0; else api = r.chance(0.15) ? 3 : 2;
         if(api == 1 || api == 3) { f.type = OPNMIDI_SampleType_S16; f.container = 2; f.offset = 4; f.offclass = 1; f.planar = false; }
         const bool is_play = api >= 2;
         const bool supported = pair_supported(f.type, f.container);
@@ -472,8 +493,9 @@ static void run_case(Case &c)
         // -- precondition: the two F64 twins agree
         if(supported)
         {
-            bool same = rret[0] == rret[1] && rret[0] >= 0 && rret[0] <= even2 &&
-                        (rret[0] == 0 || memcmp(ref[0].data(), ref[1].data(), (size_t)rret[0] * sizeof(double)) == 0);
+            // (a count above the request is not a disagreement of the twins: it is judged as a return value below)
+            bool same = rret[0] == rret[1] && rret[0] >= 0 &&
+                        (rret[0] == 0 || memcmp(ref[0].data(), ref[1].data(), (size_t)std::min(rret[0], even2) * sizeof(double)) == 0);
             count("twin_pairs_compared");
             if(!same)
             {
